@@ -33,15 +33,16 @@ RULE = ("one case = one aggregation module (PNorm|KSFunction|SoftMinMax, paramet
         "one call, or a sorted-count removal / band was judged on data with distinct values")
 PROBES = ["count_rounds_to_zero", "upper_count_rounds_to_zero", "lower_count_rounds_to_zero", "all_values_equal",
           "damping_history_ge5", "length_changed", "n_eq_1", "n_gt_50", "ties_at_cut", "band_edge_exact",
-          "count_near_integer_both_roundings", "negative_parameter", "scaling_which_mismatched", "undamped_exact_judged",
+          "count_near_integer_both_roundings", "negative_parameter", "scaling_which_mismatched", "undamped_exact_judged", "true_extreme_outside_active_set",
           "recursion_judged", "bounds_judged", "mask_judged", "entries_removed_by_count", "entries_removed_by_band"]
 FAULT_KINDS = []
 COMPONENTS = {"real": ["pymoto.PNorm", "pymoto.KSFunction", "pymoto.SoftMinMax", "pymoto.AggScaling", "pymoto.AggActiveSet",
                        "scipy.special.softmax"], "stub": []}
 ASSUMPTIONS = ["data are strictly positive and arguments stay in the non-overflowing range (|rho x|, |alpha x| <= 200, "
                "|p ln x| <= 200)",
-               "with AggScaling the active set only removes entries on the side opposite to the scaled extreme, so that "
-               "'true extreme' of the vector and of the active entries coincide (otherwise the step is skipped and counted)",
+               "with AggScaling and an active set that removes entries on the side of the scaled extreme, 'the true extreme' is the "
+               "one of the active entries -- the set the aggregation is applied to ('corrected to the exact maximum or minimum of the "
+               "input set', AggScaling docstring)",
                "for all-equal data the normalised value is 0/0: the mask is not judged (probe all_values_equal)",
                "bounds of an aggregate over an active set use the number of active entries"]
 NOT_EXERCISED = ["sensitivities of the aggregation modules (not part of the property)"]
@@ -115,7 +116,7 @@ def gen(rng, idx, tier):
         d = float(rng.choice([0.0, 0.0, 0.3, 0.5, 0.9])) if rng.random() < 0.7 else float(round(rng.uniform(0.0, 0.99), 3))
         case["scaling"] = dict(which=which, damping=d)
     if rng.random() < 0.75:
-        if case["scaling"] is not None:
+        if case["scaling"] is not None and rng.random() < 0.6:
             side = "low" if case["scaling"]["which"] == "max" else "high"
         else:
             side = str(rng.choice(["low", "high", "both", "both"]))
@@ -521,7 +522,9 @@ def run(case):
             true_sel = float(np.max(xs)) if smax else float(np.min(xs))
             d = float(SC["damping"])
             if true_all != true_sel:
-                ambiguous = True
+                # the active set removed the extreme of the whole vector: the aggregation sees only the active entries, and the
+                # scaling corrects it "to the exact maximum or minimum of the input set" (AggScaling docstring) -- the active ones
+                probe("true_extreme_outside_active_set")
             if approx == 0.0 or abs(approx) < 1e-9 * abs(true_sel) or not math.isfinite(approx):
                 ambiguous = True
             if ambiguous and d > 0:
